@@ -437,6 +437,19 @@ pub(crate) fn eval_expr(ctx: &Context, expr: &Expr) -> Result<Value, QueryError>
     }
 }
 
+/// The constant of a conversion target is printed as a fraction, which
+/// an infinite or undefined float does not have.
+fn finite_unit_name(
+    (name, constant): (BTreeMap<String, isize>, Numeric),
+) -> Result<(BTreeMap<String, isize>, Numeric), QueryError> {
+    match constant {
+        Numeric::Float(f) if !f.is_finite() => Err(QueryError::generic(
+            "The right hand side of the conversion is not a number".to_string(),
+        )),
+        constant => Ok((name, constant)),
+    }
+}
+
 fn has_degree(expr: &Expr) -> bool {
     match *expr {
         Expr::UnaryOp(ref unaryop) => match unaryop.op {
@@ -968,7 +981,7 @@ pub(crate) fn eval_query(ctx: &Context, expr: &Query) -> Result<QueryReply, Quer
         Query::Convert(ref top, Conversion::Expr(ref bottom), base, digits) => match (
             eval_expr(ctx, top)?,
             eval_expr(ctx, bottom)?,
-            eval_unit_name(ctx, bottom)?,
+            finite_unit_name(eval_unit_name(ctx, bottom)?)?,
         ) {
             (Value::Number(top), Value::Number(bottom), (bottom_name, bottom_const)) => {
                 if top.unit == bottom.unit {
